@@ -1,0 +1,9 @@
+//go:build verif
+
+package proxy
+
+// Verification hooks (build tag verif). Add-only; see /verif/MANIFEST.json.
+
+func VerifUint16Base16(n uint16) string { return uint16base16(n) }
+
+func VerifI32toa(n int32) string { return i32toa(n) }
